@@ -15,7 +15,7 @@ def run(ctx):
                 "\".\", \"..\", \"m/..\": laws checked by TLC on every triple, every triple replayed against "
                 "PathLocalizer::localize and compared string-for-string with the allowed set (a panic is an outcome). "
                 "Filesystem clause: every localized call of the model alphabet on every generated state, and the same call "
-                "with localized=false on the path the filesystem's own localizer maps to (twin), both decided by TLC; a "
+                "with localized=false on the path the specification maps it to (twin, printed by TLC), both decided by TLC; a "
                 "localized call the spec rejects while accepting its twin (or that has no twin) is a violation. "
                 "Non-trivial = a triple whose result must contain a marker or must be an error; a localized filesystem call.")
     binary = ctx.build("release", "mvh_fs")
@@ -92,8 +92,8 @@ def run(ctx):
     ctx.assumptions += ["paths outside the statement's scope (absolute, '.'/'..' inside, doubled '/') are not generated",
                         "where the statement is silent (trailing '/' of results that denote a directory, survival of an "
                         "input's trailing '/') every variant is allowed",
-                        "the twin path of a localized filesystem call is taken from the filesystem's own localizer, whose "
-                        "results are checked against Localize.tla in the same run"] + fsc.COMMON_ASSUMPTIONS
+                        "the explicit-path twin of a localized filesystem call is computed by the specification (Localize with "
+                        "the localizer Cfg(game) prescribes and the filesystem's language, canonical spelling; TLC's W lines)"] + fsc.COMMON_ASSUMPTIONS
 
 
 def replay(ctx, rp):
